@@ -495,7 +495,7 @@ func init() {
 	Register(&Engine{
 		ID:      "C19",
 		Anchors: []string{"router.go:Prefix", "router.go:Resource", "router.go:Clean", "node.go:clean", "router.go:Remove", "router.go:URL"},
-		Cases:   func(t string) int { return map[string]int{"quick": 4000, "thorough": 80000}[t] },
+		Cases:   func(t string) int { return map[string]int{"quick": 8000, "thorough": 320000}[t] },
 		Run:     runC19,
 		Rule: "case = random facade program (10-30 steps: Prefix / nested Prefix / Resource creation with middlewares, prefixes cut anywhere incl. empty and inside a parameter token; Get/Post/Put/Delete/Patch/Any/Handle; Remove; Clean; URL; one program in four starts with a Clean-focused preamble: a route ending in a parameter, one or two routes continuing it in either order, then Prefix.Clean on the prefix 1-3 bytes past the parameter) executed on router A and its translation into Router.Handle/Remove/URL calls with concatenated patterns and middleware lists on router B; after every step Routes(), a probe battery per pool pattern x 5 methods (status, paired handler, params, executed middleware chain, Allow), URL results and panics must agree; " +
 			"non-trivial (distinct by program text) = every program",
